@@ -30,7 +30,7 @@ fn meta() -> Meta {
     Meta {
         id: "C12",
         level: "model_checking",
-        rule: "for every multiset of 2 (all) or 3 (selected) operations from {set_new_spec(A), parse_new_spec(B), push_temp_spec(C), push_temp_spec(C)+pop_temp_spec, set_new_spec(D)}, every interleaving of the threads' scheduling points (thread start, acquisition of the spec write lock, global max-level update, thread end) is executed under the controlled scheduler; states = choice points visited, transitions = scheduling decisions taken; a schedule is non-trivial when it contains at least one preemption; plus WatcherE (the specfile watcher's path through a guarded hook) as sixth operation and a Probe thread reading log::max_level() at any moment (the additional writer's max_log_level() is a scheduling point): the gate is never below that writer's ceiling; every pair also with the spec lock left un-modelled (real blocking on the RwLock, detected from the kernel thread state); a LogQ thread logs an error record for a module every specification switches off - it is never written",
+        rule: "for every multiset of 2 (all) or 3 (selected) operations from {set_new_spec(A), parse_new_spec(B), push_temp_spec(C), push_temp_spec(C)+pop_temp_spec, set_new_spec(D)}, every interleaving of the threads' scheduling points (thread start, acquisition of the spec write lock, global max-level update, thread end) is executed under the controlled scheduler; states = choice points visited, transitions = scheduling decisions taken; a schedule is non-trivial when it contains at least one preemption; plus WatcherE (the specfile watcher's path through a guarded hook) as sixth operation and a Probe thread reading log::max_level() at any moment (the additional writer's max_log_level() is a scheduling point): the gate is never below that writer's ceiling; every pair also with the spec lock left un-modelled (real blocking on the RwLock, detected from the kernel thread state); a LogQ thread logs an error record for a module every specification switches off - it is never written; plus an auxiliary free-running pass (sampling): 60000 / 1.5 M rounds of two simultaneous set_new_spec calls, the state judged after every round",
         assumptions: vec![
             "sequentially consistent interleaving at hook granularity (spec RwLock section and log::set_max_level are the only shared accesses of these operations)".into(),
             "the specfile watcher calls the same WritersHandle::set_new_spec and is covered as another thread".into(),
@@ -130,7 +130,61 @@ fn unmodelled_pairs() -> Vec<Vec<Op>> {
 }
 
 fn units(tier: &str) -> usize {
-    harnesses(tier).len() + unmodelled_pairs().len()
+    harnesses(tier).len() + unmodelled_pairs().len() + 1
+}
+
+fn stress_rounds(tier: &str) -> usize {
+    if tier == "quick" {
+        60_000
+    } else {
+        1_500_000
+    }
+}
+
+/// Auxiliary, free-running (sampling; decides nothing on its own): two threads call
+/// set_new_spec(A = trace) and set_new_spec(E = error) at the same moment, round after round; after
+/// each round whichever specification is active must be admitted by the gate. Looks for windows
+/// between two hooks that the scheduler cannot enumerate.
+fn stress_pairs(rounds: usize) -> Option<String> {
+    use std::sync::atomic::{AtomicUsize, Ordering};
+    let (logger, handle) = Logger::with(spec(INITIAL).build()).log_to_writer(Box::new(Recorder::new(LevelFilter::Trace))).error_channel(flexi_logger::ErrorChannel::DevNull).build().ok()?;
+    let gate = Arc::new(AtomicUsize::new(0));
+    let done = Arc::new(AtomicUsize::new(0));
+    let mut ths = Vec::new();
+    for which in 0..2usize {
+        let (gate, done) = (Arc::clone(&gate), Arc::clone(&done));
+        let h = handle.clone();
+        ths.push(std::thread::spawn(move || {
+            let specs = [spec(0).build(), spec(5).build()];
+            for r in 0..rounds {
+                while gate.load(Ordering::SeqCst) <= r {
+                    std::hint::spin_loop();
+                }
+                // alternate which thread submits which specification
+                h.set_new_spec(specs[(which + r) % 2].clone());
+                done.fetch_add(1, Ordering::SeqCst);
+            }
+            std::mem::forget(h);
+        }));
+    }
+    let mut bad = None;
+    for r in 0..rounds {
+        gate.store(r + 1, Ordering::SeqCst);
+        while done.load(Ordering::SeqCst) < 2 * (r + 1) {
+            std::hint::spin_loop();
+        }
+        let trace_on = logger.enabled(&log::Metadata::builder().level(log::Level::Trace).target("x").build());
+        let g = log::max_level();
+        if bad.is_none() && trace_on && g < LevelFilter::Trace {
+            bad = Some(format!("round {r}: after two concurrent set_new_spec calls (trace / error) the active specification enables trace records, but log::max_level() is {g}"));
+        }
+    }
+    for t in ths {
+        t.join().ok();
+    }
+    std::mem::forget(handle);
+    drop(logger);
+    bad
 }
 fn bounds(tier: &str) -> Value {
     json!({"harnesses": harnesses(tier).iter().map(|h| format!("{h:?}")).collect::<Vec<_>>(), "preemption_bound": "none (all interleavings)"})
@@ -300,6 +354,19 @@ fn judge(ops: &[Op], o: &Obs) -> Result<usize, (String, String)> {
 
 fn run_unit(tier: &str, unit: usize, out: &mut Out) {
     let hs = harnesses(tier);
+    if unit >= hs.len() + unmodelled_pairs().len() {
+        let rounds = stress_rounds(tier);
+        out.count("stress_rounds(sampling)", rounds as u64);
+        out.evaluations += 1;
+        let case = json!({"tier": tier, "unit": unit, "kind": "stress"});
+        match crate::run_isolated(std::time::Duration::from_secs(900), move || stress_pairs(rounds)) {
+            crate::Ran::Done(None) => out.outcome("stress: consistent after every round"),
+            crate::Ran::Done(Some(d)) => out.violation(Violation::new("gate-below-spec", "[SetA, SetE]/free-running", d, case)),
+            crate::Ran::Panicked(m) => out.violation(Violation::new("panic", "free-running", m, case)),
+            crate::Ran::Hung => out.violation(Violation::new("deadlock", "free-running", "the free-running rounds did not finish within 900 s".to_string(), case)),
+        }
+        return;
+    }
     let unmodelled = unit >= hs.len();
     let ops = if unmodelled { unmodelled_pairs()[unit - hs.len()].clone() } else { hs[unit].clone() };
     let cfg = sched_cfg_for(unmodelled);
@@ -383,6 +450,12 @@ fn run_unit(tier: &str, unit: usize, out: &mut Out) {
 }
 
 fn replay(case: &Value) -> Vec<Violation> {
+    if case["kind"].as_str() == Some("stress") {
+        println!("replay C12: free-running rounds (sampling: a pass proves nothing)");
+        let mut out = Out::default();
+        run_unit("thorough", usize::MAX, &mut out);
+        return out.violations;
+    }
     let tier = case["tier"].as_str().unwrap_or("quick");
     let unit = case["unit"].as_u64().unwrap_or(0) as usize;
     let hs = harnesses(tier);
